@@ -425,13 +425,16 @@ theorem createProperty_trans {st : State} {name : Str} {inp : Input} (hwf : inp.
             simp only [p0, newProp, List.mem_replicate] at hc
             rw [hc.2]; exact fill_ok d
           have hh := (setValues_head p0 vals).1
-          apply Trans.addProp (setValues p0 vals).1
-          · exact hh.id
-          · intro p hp hne
-            apply hdup
-            rw [List.any_eq_true]
-            exact ⟨p, hp, by rw [hne, hh.name]; simp [p0, newProp]⟩
-          · exact setValues_typed hvwf hp0
+          simp only
+          split
+          · exact Trans.same
+          · apply Trans.addProp (setValues p0 vals).1
+            · exact hh.id
+            · intro p hp hne
+              apply hdup
+              rw [List.any_eq_true]
+              exact ⟨p, hp, by rw [hne, hh.name]; simp [p0, newProp]⟩
+            · exact setValues_typed hvwf hp0
 
 theorem createSection_trans {st : State} {name type : Str} : Trans st (createSection st name type).1 := by
   unfold createSection
